@@ -23,11 +23,13 @@ CONSTANTS N, MaxCmd, MaxVar, NCtx, HookKinds,
           TaskAllow,   \* BOOLEAN: tasks may carry allow_failure themselves (besides the stage-level flag)
           AtomicLaunch, \* BOOLEAN: a loop moves a stage from Waiting to Running in one atomic step (compare-and-swap);
                        \*   FALSE transcribes the code before the repair: the status is read, then written
+          CondErr,     \* BOOLEAN: stages may have a condition that cannot be evaluated (class CERR): the loop stores
+                       \*   Error for such a stage and cancels the run (Scheduler.Cancel -> TaskRunner.Cancel)
           ErrFirst     \* BOOLEAN: a failing stage records the graph's error BEFORE it stores its Error status;
                        \*   FALSE transcribes the code before the repair cc0baab: the status first, the error after
 Stages == 1..N
 Ctxs == 1..NCtx
-Classes == {"OK", "FAIL", "FAILA", "CFALSE"}
+Classes == {"OK", "FAIL", "FAILA", "CFALSE"} \cup (IF CondErr THEN {"CERR"} ELSE {})
 Graphs == {0, 1}
 VARIABLES deps, cls, ncmd, failAt, nvar, ctx, hb, ha, upFails,   \* configuration
           tallow,                                        \* the TASK allows failure: a failing command does not end the run
@@ -41,9 +43,14 @@ VARIABLES deps, cls, ncmd, failAt, nvar, ctx, hb, ha, upFails,   \* configuratio
           gpc,                                           \* stage goroutine: none | launched | inrun | back | fin
           rpc, pt, role, done, rfail, ran,               \* run: none | entered | exited; progress point; job
                                                          \*   in execution; commands done; failed; hooks run
-          upst, dn                                       \* context: up no|running|ok|failed; down no|running|done
+          upst, dn,                                      \* context: up no|running|ok|failed; down no|running|done
+          canc,                                          \* the loop's call of Scheduler.Cancel (it runs IN the loop's goroutine):
+                                                         \*   no | pending (Error stored for a CERR stage) | called (flag set) |
+                                                         \*   set (the runner's context is cancelled) | done (Cancel returned)
+          ctxc, quiet                                    \* the runner's context has been cancelled; a Cancel call has returned
 cfgv == <<deps, cls, ncmd, failAt, nvar, ctx, hb, ha, upFails, tallow, gr, inc>>
-vars == <<deps, cls, ncmd, failAt, nvar, ctx, hb, ha, upFails, tallow, gr, inc, status, gerr, loop, want, twice, want, twice, nl, by, gpc, rpc, pt, role, done, rfail, ran, upst, dn>>
+cvars == <<canc, ctxc, quiet>>
+vars == <<deps, cls, ncmd, failAt, nvar, ctx, hb, ha, upFails, tallow, gr, inc, status, gerr, loop, want, twice, want, twice, nl, by, gpc, rpc, pt, role, done, rfail, ran, upst, dn, canc, ctxc, quiet>>
 
 Allow(s) == cls[s] = "FAILA"
 Fails(s) == cls[s] \in {"FAIL", "FAILA"}          \* the command at position failAt exits non-zero
@@ -74,6 +81,9 @@ Init == /\ gr \in (IF Nesting THEN [Stages -> Graphs] ELSE {[s \in Stages |-> 0]
         /\ pt = [s \in Stages |-> "start"] /\ role = [s \in Stages |-> "none"]
         /\ done = [s \in Stages |-> 0] /\ rfail = [s \in Stages |-> FALSE] /\ ran = [s \in Stages |-> {}]
         /\ upst = [c \in Ctxs |-> "no"] /\ dn = [c \in Ctxs |-> "no"]
+        /\ canc = "no" /\ ctxc = FALSE /\ quiet = FALSE
+        /\ \A s \in Stages : cls[s] = "CERR" => ~inc[s] /\ gr[s] = 0 /\ ~tallow[s]   \* (CERR on plain outer stages)
+        /\ (\E s \in Stages : cls[s] = "CERR") => \A s \in Stages : ~tallow[s] /\ gr[s] = 0
 
 \* the configuration of the negative control Taskctl_nest3_errlate.cfg (and of the scenario the harness
 \* forces on the real scheduler): a failing stage in a pipeline that two stages without dependencies include
@@ -89,22 +99,37 @@ InitDouble == /\ Init /\ gr = [s \in Stages |-> IF s = 1 THEN 1 ELSE 0] /\ inc =
 \* an outer stage is visited by the outer loop, a stage of the included pipeline by the loop of a
 \* nested Schedule call that is in progress (one per including stage that is running)
 LiveLoops(s) == IF gr[s] = 0 THEN {0} ELSE {i \in Stages : inc[i] /\ nl[i] = "loop"}
+LoopFree == canc \in {"no", "done"}         \* the loop's goroutine is not inside Scheduler.Cancel
 Visit(s) ==
-  /\ (gr[s] = 0 => loop) /\ LiveLoops(s) # {} /\ status[s] = "W"
+  /\ (gr[s] = 0 => loop) /\ LiveLoops(s) # {} /\ status[s] = "W" /\ cls[s] # "CERR" /\ LoopFree
   /\ IF cls[s] = "CFALSE" THEN status' = [status EXCEPT ![s] = "S"] /\ UNCHANGED <<gpc, by>>
      ELSE IF \E d \in deps[s] : Blocked(d) THEN status' = [status EXCEPT ![s] = "C"] /\ UNCHANGED <<gpc, by>>
      ELSE /\ \A d \in deps[s] : Sat(d)
           /\ AtomicLaunch \/ gr[s] = 0
           /\ status' = [status EXCEPT ![s] = "R"] /\ gpc' = [gpc EXCEPT ![s] = "launched"]
           /\ \E i \in LiveLoops(s) : by' = [by EXCEPT ![s] = i]
-  /\ UNCHANGED <<cfgv, gerr, loop, want, twice, nl, rpc, pt, role, done, rfail, ran, upst, dn>>
+  /\ UNCHANGED <<cfgv, cvars, gerr, loop, want, twice, nl, rpc, pt, role, done, rfail, ran, upst, dn>>
+\* A condition that cannot be evaluated (whatever the stage's dependencies: conditions are evaluated first):
+\* the loop stores Error and then calls Scheduler.Cancel itself - flag, TaskRunner.Cancel: the runner's context
+\* is cancelled (CancelSet) and the call waits until no run is in flight (CancelDone); the rest of the pass
+\* goes on after that (stages that are ready are still launched: their runs are refused), then the loop leaves
+VisitCErr(s) == /\ loop /\ gr[s] = 0 /\ status[s] = "W" /\ cls[s] = "CERR" /\ LoopFree
+                /\ status' = [status EXCEPT ![s] = "E"] /\ canc' = "pending"
+                /\ UNCHANGED <<cfgv, ctxc, quiet, gerr, loop, want, twice, nl, by, gpc, rpc, pt, role, done, rfail, ran, upst, dn>>
+CancelCall == /\ canc = "pending" /\ canc' = "called"
+              /\ UNCHANGED <<cfgv, ctxc, quiet, status, gerr, loop, want, twice, nl, by, gpc, rpc, pt, role, done, rfail, ran, upst, dn>>
+CancelSet == /\ canc = "called" /\ canc' = "set" /\ ctxc' = TRUE
+             /\ UNCHANGED <<cfgv, quiet, status, gerr, loop, want, twice, nl, by, gpc, rpc, pt, role, done, rfail, ran, upst, dn>>
+CancelDone == /\ canc = "set" /\ \A s \in Stages : rpc[s] # "entered"
+              /\ canc' = "done" /\ quiet' = TRUE
+              /\ UNCHANGED <<cfgv, ctxc, status, gerr, loop, want, twice, nl, by, gpc, rpc, pt, role, done, rfail, ran, upst, dn>>
 \* The code before the repair (AtomicLaunch = FALSE): the nested loop of including stage i reads the
 \* status of inner stage s and finds it ready ...
 VisitDecide(i, s) ==
   /\ ~AtomicLaunch /\ inc[i] /\ nl[i] = "loop" /\ gr[s] = 1 /\ status[s] = "W" /\ s \notin want[i]
   /\ cls[s] # "CFALSE" /\ \A d \in deps[s] : Sat(d)
   /\ want' = [want EXCEPT ![i] = @ \cup {s}]
-  /\ UNCHANGED <<cfgv, status, gerr, loop, twice, nl, by, gpc, rpc, pt, role, done, rfail, ran, upst, dn>>
+  /\ UNCHANGED <<cfgv, cvars, status, gerr, loop, twice, nl, by, gpc, rpc, pt, role, done, rfail, ran, upst, dn>>
 \* ... and later stores Running and launches it - whether or not another loop has done so meanwhile
 VisitCommit(i, s) ==
   /\ ~AtomicLaunch /\ s \in want[i]
@@ -112,22 +137,26 @@ VisitCommit(i, s) ==
   /\ IF status[s] = "W"
        THEN status' = [status EXCEPT ![s] = "R"] /\ gpc' = [gpc EXCEPT ![s] = "launched"] /\ by' = [by EXCEPT ![s] = i] /\ UNCHANGED twice
        ELSE twice' = TRUE /\ UNCHANGED <<status, gpc, by>>
-  /\ UNCHANGED <<cfgv, gerr, loop, nl, rpc, pt, role, done, rfail, ran, upst, dn>>
+  /\ UNCHANGED <<cfgv, cvars, gerr, loop, nl, rpc, pt, role, done, rfail, ran, upst, dn>>
 \* the stage goroutine calls runStage -> TaskRunner.Run
 \* (an including stage: runStage -> Schedule of the included pipeline, whose loop is then alive)
 StageEnter(s) == /\ gpc[s] = "launched" /\ gpc' = [gpc EXCEPT ![s] = "inrun"]
                  /\ nl' = IF inc[s] THEN [nl EXCEPT ![s] = "loop"] ELSE nl
-                 /\ UNCHANGED <<cfgv, status, gerr, loop, want, twice, by, rpc, pt, role, done, rfail, ran, upst, dn>>
+                 /\ UNCHANGED <<cfgv, cvars, status, gerr, loop, want, twice, by, rpc, pt, role, done, rfail, ran, upst, dn>>
 \* the nested Schedule of including stage i returns: every stage of the included pipeline is terminal
 \* and the stage goroutines THIS call launched have finished (its own WaitGroup)
 \* (it returns the graph's LastError as it is at that moment)
 NReturn(i) == /\ inc[i] /\ nl[i] = "loop"
               /\ \A s \in Inner : status[s] \notin {"W", "R"} /\ (by[s] = i => gpc[s] \in {"none", "fin"})
               /\ nl' = [nl EXCEPT ![i] = "ret"] /\ rfail' = [rfail EXCEPT ![i] = gerr[1]]
-              /\ UNCHANGED <<cfgv, status, gerr, loop, want, twice, by, gpc, rpc, pt, role, done, ran, upst, dn>>
+              /\ UNCHANGED <<cfgv, cvars, status, gerr, loop, want, twice, by, gpc, rpc, pt, role, done, ran, upst, dn>>
 \* --- runner layer ---
-RunEnter(s) == /\ ~inc[s] /\ gpc[s] = "inrun" /\ rpc[s] = "none" /\ rpc' = [rpc EXCEPT ![s] = "entered"]
-               /\ UNCHANGED <<cfgv, status, gerr, loop, want, twice, nl, by, gpc, pt, role, done, rfail, ran, upst, dn>>
+RunEnter(s) == /\ ~inc[s] /\ gpc[s] = "inrun" /\ rpc[s] = "none" /\ ~ctxc /\ rpc' = [rpc EXCEPT ![s] = "entered"]
+               /\ UNCHANGED <<cfgv, cvars, status, gerr, loop, want, twice, nl, by, gpc, pt, role, done, rfail, ran, upst, dn>>
+\* a run called once the context is cancelled is refused: it returns the error at once, nothing of it is executed
+RunRefused(s) == /\ ~inc[s] /\ gpc[s] = "inrun" /\ rpc[s] = "none" /\ ctxc
+                 /\ rpc' = [rpc EXCEPT ![s] = "exited"] /\ rfail' = [rfail EXCEPT ![s] = TRUE]
+                 /\ UNCHANGED <<cfgv, cvars, status, gerr, loop, want, twice, nl, by, gpc, pt, role, done, ran, upst, dn>>
 
 \* The next job of the run of s, as a function of how far it got (runner.go Run, contextForTask):
 \*   "up"  context start-up (only the first run that needs the context executes it; the others wait)
@@ -152,7 +181,7 @@ NextOp(s) ==
 CmdStart(s) == /\ rpc[s] = "entered" /\ role[s] = "none" /\ NextOp(s) \notin {"wait", "exit"}
                /\ role' = [role EXCEPT ![s] = NextOp(s)]
                /\ upst' = IF NextOp(s) = "up" THEN [upst EXCEPT ![ctx[s]] = "running"] ELSE upst
-               /\ UNCHANGED <<cfgv, status, gerr, loop, want, twice, nl, by, gpc, rpc, pt, done, rfail, ran, dn>>
+               /\ UNCHANGED <<cfgv, cvars, status, gerr, loop, want, twice, nl, by, gpc, rpc, pt, done, rfail, ran, dn>>
 \* the job ends; a failing one ends the run (the context's after still runs)
 CmdEnd(s) ==
   /\ role[s] # "none" /\ role' = [role EXCEPT ![s] = "none"]
@@ -166,16 +195,26 @@ CmdEnd(s) ==
        [] role[s] = "ta"  -> /\ pt' = [pt EXCEPT ![s] = "tad"] /\ ran' = [ran EXCEPT ![s] = @ \cup {"ta"}]
                              /\ UNCHANGED <<upst, done, rfail>>       \* a failing after hook is only logged
        [] OTHER           -> pt' = [pt EXCEPT ![s] = "cad"] /\ ran' = [ran EXCEPT ![s] = @ \cup {"ca"}] /\ UNCHANGED <<upst, done, rfail>>
-  /\ UNCHANGED <<cfgv, status, gerr, loop, want, twice, nl, by, gpc, rpc, dn>>
+  /\ UNCHANGED <<cfgv, cvars, status, gerr, loop, want, twice, nl, by, gpc, rpc, dn>>
+\* a job of the task (hook or command; the context's own jobs do not use the runner's context) that is
+\* running when the context is cancelled, or is started after that, ends with the context's error
+CmdKilled(s) ==
+  /\ ctxc /\ role[s] \in {"tb", "cmd", "ta"} /\ role' = [role EXCEPT ![s] = "none"]
+  /\ CASE role[s] = "tb" -> /\ pt' = [pt EXCEPT ![s] = "tbd"] /\ ran' = [ran EXCEPT ![s] = @ \cup {"tb"}]
+                            /\ rfail' = [rfail EXCEPT ![s] = TRUE] /\ UNCHANGED done
+       [] role[s] = "cmd" -> /\ pt' = [pt EXCEPT ![s] = "cmd"] /\ done' = [done EXCEPT ![s] = @ + 1]
+                             /\ rfail' = [rfail EXCEPT ![s] = TRUE] /\ UNCHANGED ran
+       [] OTHER -> /\ pt' = [pt EXCEPT ![s] = "tad"] /\ ran' = [ran EXCEPT ![s] = @ \cup {"ta"}] /\ UNCHANGED <<done, rfail>>
+  /\ UNCHANGED <<cfgv, cvars, status, gerr, loop, want, twice, nl, by, gpc, rpc, upst, dn>>
 RunExit(s) == /\ rpc[s] = "entered" /\ role[s] = "none" /\ NextOp(s) = "exit"
               /\ rpc' = [rpc EXCEPT ![s] = "exited"]
               /\ rfail' = [rfail EXCEPT ![s] = @ \/ (pt[s] = "start" /\ ctx[s] # 0)]   \* the start-up error
-              /\ UNCHANGED <<cfgv, status, gerr, loop, want, twice, nl, by, gpc, pt, role, done, ran, upst, dn>>
+              /\ UNCHANGED <<cfgv, cvars, status, gerr, loop, want, twice, nl, by, gpc, pt, role, done, ran, upst, dn>>
 \* --- back in the stage goroutine: Run returned, the outcome is published (two stores for an allowed failure) ---
 StageRet(s) == /\ gpc[s] = "inrun" /\ gpc' = [gpc EXCEPT ![s] = "back"]
                /\ IF inc[s] THEN nl[s] = "ret" ELSE rpc[s] = "exited"       \* (the nested Schedule returned LastError)
                /\ UNCHANGED rfail
-               /\ UNCHANGED <<cfgv, status, gerr, loop, want, twice, nl, by, rpc, pt, role, done, ran, upst, dn>>
+               /\ UNCHANGED <<cfgv, cvars, status, gerr, loop, want, twice, nl, by, rpc, pt, role, done, ran, upst, dn>>
 \* A failure that is not allowed is published in two separate steps, the graph's error and the stage's
 \* Error status (gpc "errset" / "stset" in between): another Schedule call on the same graph may run
 \* between them.
@@ -185,11 +224,11 @@ Publish(s) == /\ gpc[s] = "back"
                         ELSE IF ErrFirst THEN /\ gerr' = [gerr EXCEPT ![gr[s]] = TRUE] /\ gpc' = [gpc EXCEPT ![s] = "errset"] /\ UNCHANGED status
                                          ELSE /\ status' = [status EXCEPT ![s] = "E"] /\ gpc' = [gpc EXCEPT ![s] = "stset"] /\ UNCHANGED gerr
                    ELSE status' = [status EXCEPT ![s] = "D"] /\ gpc' = [gpc EXCEPT ![s] = "fin"] /\ UNCHANGED gerr
-              /\ UNCHANGED <<cfgv, loop, want, twice, nl, by, rpc, pt, role, done, rfail, ran, upst, dn>>
+              /\ UNCHANGED <<cfgv, cvars, loop, want, twice, nl, by, rpc, pt, role, done, rfail, ran, upst, dn>>
 PublishRest(s) == /\ gpc[s] \in {"errset", "stset"} /\ gpc' = [gpc EXCEPT ![s] = "fin"]
                   /\ IF gpc[s] = "errset" THEN status' = [status EXCEPT ![s] = "E"] /\ UNCHANGED gerr
                                           ELSE gerr' = [gerr EXCEPT ![gr[s]] = TRUE] /\ UNCHANGED status
-                  /\ UNCHANGED <<cfgv, loop, want, twice, nl, by, rpc, pt, role, done, rfail, ran, upst, dn>>
+                  /\ UNCHANGED <<cfgv, cvars, loop, want, twice, nl, by, rpc, pt, role, done, rfail, ran, upst, dn>>
 \* both steps at once: what a log of status stores shows of the repaired code (the store of the Error
 \* status is logged; the error was recorded just before it and is read by nobody until then)
 PublishAtomic(s) ==
@@ -198,19 +237,22 @@ PublishAtomic(s) ==
                    THEN /\ status' = [status EXCEPT ![s] = "E"]
                         /\ IF Allow(s) THEN UNCHANGED <<gpc, gerr>> ELSE gpc' = [gpc EXCEPT ![s] = "fin"] /\ gerr' = [gerr EXCEPT ![gr[s]] = TRUE]
                    ELSE status' = [status EXCEPT ![s] = "D"] /\ gpc' = [gpc EXCEPT ![s] = "fin"] /\ UNCHANGED gerr
-              /\ UNCHANGED <<cfgv, loop, want, twice, nl, by, rpc, pt, role, done, rfail, ran, upst, dn>>
+              /\ UNCHANGED <<cfgv, cvars, loop, want, twice, nl, by, rpc, pt, role, done, rfail, ran, upst, dn>>
 \* the loop sees every stage terminal and leaves; Schedule returns after wg.Wait
-LoopExit == /\ loop /\ \A s \in Stages : gr[s] = 0 => status[s] \notin {"W", "R"}
+LoopExit == /\ loop /\ LoopFree
+            /\ canc = "done" \/ \A s \in Stages : gr[s] = 0 => status[s] \notin {"W", "R"}      \* (cancelled: it leaves at the top of the next pass)
             /\ loop' = FALSE
-            /\ UNCHANGED <<cfgv, status, gerr, want, twice, nl, by, gpc, rpc, pt, role, done, rfail, ran, upst, dn>>
+            /\ UNCHANGED <<cfgv, cvars, status, gerr, want, twice, nl, by, gpc, rpc, pt, role, done, rfail, ran, upst, dn>>
 \* --- TaskRunner.Finish after Schedule returned: down of every context that was used ---
-Returned == ~loop /\ \A s \in Stages : gr[s] = 0 => gpc[s] \in {"none", "fin"} /\ status[s] \notin {"W", "R"}
+Returned == ~loop /\ \A s \in Stages : gr[s] = 0 => gpc[s] \in {"none", "fin"} /\ status[s] # "R" /\ (~ctxc => status[s] # "W")
 DownStart(c) == /\ Returned /\ upst[c] # "no" /\ dn[c] = "no" /\ dn' = [dn EXCEPT ![c] = "running"]
-                /\ UNCHANGED <<cfgv, status, gerr, loop, want, twice, nl, by, gpc, rpc, pt, role, done, rfail, ran, upst>>
+                /\ UNCHANGED <<cfgv, cvars, status, gerr, loop, want, twice, nl, by, gpc, rpc, pt, role, done, rfail, ran, upst>>
 DownEnd(c) == /\ dn[c] = "running" /\ dn' = [dn EXCEPT ![c] = "done"]
-              /\ UNCHANGED <<cfgv, status, gerr, loop, want, twice, nl, by, gpc, rpc, pt, role, done, rfail, ran, upst>>
+              /\ UNCHANGED <<cfgv, cvars, status, gerr, loop, want, twice, nl, by, gpc, rpc, pt, role, done, rfail, ran, upst>>
 Next == \/ LoopExit
         \/ \E i, s \in Stages : VisitDecide(i, s) \/ VisitCommit(i, s)
+        \/ CancelCall \/ CancelSet \/ CancelDone
+        \/ \E s \in Stages : VisitCErr(s) \/ RunRefused(s) \/ CmdKilled(s)
         \/ \E s \in Stages : Visit(s) \/ StageEnter(s) \/ NReturn(s) \/ RunEnter(s) \/ CmdStart(s) \/ CmdEnd(s) \/ RunExit(s) \/ StageRet(s) \/ Publish(s) \/ PublishRest(s)
         \/ \E c \in Ctxs : DownStart(c) \/ DownEnd(c)
 Spec == Init /\ [][Next]_vars /\ WF_vars(Next)
@@ -235,7 +277,7 @@ ExpDone(s) == IF ~RunsTask(s) \/ ~UpOK(s) \/ hb[s] = "fail" THEN 0 ELSE IF Fails
 ExpRan(s) == IF ~RunsTask(s) \/ ~UpOK(s) THEN {}
              ELSE (IF ctx[s] # 0 THEN {"cb", "ca"} ELSE {}) \cup (IF hb[s] # "none" THEN {"tb"} ELSE {})
                   \cup (IF ha[s] # "none" /\ hb[s] # "fail" /\ (~Fails(s) \/ tallow[s]) THEN {"ta"} ELSE {})
-AllOver == Returned /\ \A c \in Ctxs : dn[c] \notin {"running"} /\ (upst[c] # "no" => dn[c] = "done")
+AllOver == Returned /\ canc \in {"no", "done"} /\ \A c \in Ctxs : dn[c] \notin {"running"} /\ (upst[c] # "no" => dn[c] = "done")
 Busy(s) == role[s] # "none" \/ rpc[s] = "entered"
 \* what a dependency ran is completely over
 Over(d) == \/ status[d] = "S"
@@ -258,7 +300,22 @@ NothingRunsAtReturn == Returned => \A s \in Stages : gpc[s] \in {"none", "fin"} 
 \* C03: no stage is launched twice (two nested loops over one included pipeline)
 NoDoubleLaunch == ~twice
 \* C02 / C03 / C14 at the end of the run
-FinalOK == Returned => /\ \A s \in Stages : status[s] = ExpFinal(s)
+\* C12 at the level of the whole run: once a Cancel call has returned nothing is in flight and nothing starts
+QuietAfterCancel == quiet => \A s \in Stages : rpc[s] # "entered" /\ role[s] = "none"
+\* C12 / C03: a cancelled run returns with nothing left Running; what is Done ran to its end without an error,
+\* every stage whose run was refused or interrupted is in Error; the stage with the condition is in Error
+CancelledFinal == (Returned /\ ctxc) => /\ \A s \in Stages : status[s] \in {"W", "S", "D", "E", "C"}
+                                        /\ \A s \in Stages : status[s] = "D" => /\ (~inc[s] => rpc[s] = "exited") /\ (~rfail[s] \/ Allow(s))
+                                        /\ \A s \in Stages : cls[s] = "CERR" => status[s] \in {"E", "W"}
+                                        /\ \A s \in Stages : (rpc[s] = "exited" /\ rfail[s] /\ ~Allow(s)) => status[s] = "E" /\ gerr[gr[s]]
+\* reachability witnesses (negative controls: each MUST be violated, or the cancellation part is vacuous):
+\* a Cancel call does return while some stage has been launched / a run is refused / a job is killed
+InitCErr == /\ Init /\ cls = [s \in Stages |-> IF s = N THEN "CERR" ELSE "OK"] /\ deps = [s \in Stages |-> {}]
+            /\ gr = [s \in Stages |-> 0] /\ inc = [s \in Stages |-> FALSE]
+NeverQuietWithWork == ~(quiet /\ \E s \in Stages : rpc[s] = "exited" /\ rfail[s] /\ done[s] > 0)
+NeverRefused == ~(\E s \in Stages : rpc[s] = "exited" /\ rfail[s] /\ done[s] = 0 /\ ran[s] = {} /\ ctxc /\ cls[s] = "OK" /\ hb[s] = "none")
+FinalOK == (Returned /\ ~ctxc) =>
+                       /\ \A s \in Stages : status[s] = ExpFinal(s)
                        /\ gerr[0] = (\E s \in Stages : gr[s] = 0 /\ Exp(s) = "E")
                        /\ \A s \in Stages : done[s] = ExpDone(s) /\ ran[s] = ExpRan(s)
                        /\ \A c \in Ctxs : (upst[c] # "no") = (\E s \in Stages : RunsTask(s) /\ ctx[s] = c)
